@@ -1,5 +1,5 @@
 (* Seq_facts.v -- lemmas about the model of the sequence-based formulation (Seq.v).  [C07, C18] *)
-From Coq Require Import ZArith List Bool Lia ZifyBool Permutation.
+From Coq Require Import ZArith List Bool Lia ZifyBool Permutation Sorted.
 From VQ Require Import Base LinAlg Vrptw Vrptw_facts Seq.
 
 (* ================================================================== *)
@@ -1329,8 +1329,6 @@ Qed.
 (* ================================================================== *)
 (** * 12. Strict mode: every walk meets the time windows *)
 
-Definition gnode (g : graph) (n : nat) : node := nth n (nodes g) dummy_node.
-
 (* what the strict add_arc guarantees for the stored arcs when the depot was node 0 all along:
    customer origin: window END + travel time <= destination window end;
    depot origin: window start + travel time <= destination window end;
@@ -1344,17 +1342,6 @@ Definition strict_graph (g : graph) : Prop :=
 Definition windows_ok (g : graph) : Prop :=
   forall n, (n < length (nodes g))%nat -> ext_le (Fin (nlo (gnode g n))) (nhi (gnode g n)).
 
-(* boolean version, for concrete instances *)
-Definition strict_graphb (g : graph) : bool :=
-  forallb (fun kv =>
-    match kv with
-    | ((i, j), a) =>
-        (if Nat.eqb i 0
-         then ext_leb (Fin (nlo (gnode g 0) + att a)) (nhi (gnode g j)) &&
-              (if Nat.eqb j 0 then ext_leb (ext_add (nhi (gnode g 0)) (att a)) (nhi (gnode g 0)) else true)
-         else ext_leb (ext_add (nhi (gnode g i)) (att a)) (nhi (gnode g j)))
-    end) (arcs g).
-
 Lemma strict_graphb_true g : strict_graphb g = true -> strict_graph g.
 Proof.
   unfold strict_graphb, strict_graph. rewrite forallb_forall. intros H i j a Hin.
@@ -1365,9 +1352,6 @@ Proof.
     + intros _ Ej. destruct (Nat.eqb_spec j 0); [|congruence]. apply ext_leb_le. exact H2.
   - repeat split; try congruence. intros _. apply ext_leb_le. exact H.
 Qed.
-
-Definition windows_okb (g : graph) : bool :=
-  forallb (fun n => ext_leb (Fin (nlo n)) (nhi n)) (nodes g).
 
 Lemma windows_okb_true g : windows_okb g = true -> windows_ok g.
 Proof.
@@ -1456,4 +1440,271 @@ Proof.
   - intros _. assert (Hh : forall h, ext_le (ext_add h 0) h).
     { intros [z|]; unfold ext_le, ext_add; simpl; auto; lia. }
     apply Hh.
+Qed.
+
+(* ================================================================== *)
+(** * 13. Decoding (get_routes) *)
+
+Definition lexle (a b : tuple) : Prop := lex_le a b = true.
+
+Lemma lex_le_spec v1 s1 n1 v2 s2 n2 :
+  lex_le (v1, s1, n1) (v2, s2, n2) = true <->
+  (v1 < v2)%nat \/ (v1 = v2 /\ ((s1 < s2)%nat \/ (s1 = s2 /\ (n1 <= n2)%nat))).
+Proof.
+  unfold lex_le. rewrite !orb_true_iff, !andb_true_iff, !orb_true_iff, !andb_true_iff,
+    !Nat.ltb_lt, !Nat.eqb_eq, Nat.leb_le. reflexivity.
+Qed.
+
+Lemma lexle_total a b : lexle a b \/ lexle b a.
+Proof.
+  destruct a as [[v1 s1] n1], b as [[v2 s2] n2]. unfold lexle. rewrite !lex_le_spec. lia.
+Qed.
+
+Lemma lexle_trans a b c : lexle a b -> lexle b c -> lexle a c.
+Proof.
+  destruct a as [[v1 s1] n1], b as [[v2 s2] n2], c as [[v3 s3] n3]. unfold lexle.
+  rewrite !lex_le_spec. lia.
+Qed.
+
+Lemma lexle_antisym a b : lexle a b -> lexle b a -> a = b.
+Proof.
+  destruct a as [[v1 s1] n1], b as [[v2 s2] n2]. unfold lexle. rewrite !lex_le_spec.
+  intros H1 H2. assert (v1 = v2 /\ s1 = s2 /\ n1 = n2) as (-> & -> & ->) by lia. reflexivity.
+Qed.
+
+Lemma insert_perm t l : Permutation (insert_t t l) (t :: l).
+Proof.
+  induction l as [|u l IH]; simpl; auto.
+  destruct (lex_le t u); auto.
+  eapply perm_trans; [apply perm_skip; exact IH | apply perm_swap].
+Qed.
+
+Lemma sort_perm l : Permutation (sort_t l) l.
+Proof.
+  induction l as [|t l IH]; simpl; auto.
+  eapply perm_trans; [apply insert_perm | apply perm_skip; exact IH].
+Qed.
+
+Lemma insert_sorted t l : StronglySorted lexle l -> StronglySorted lexle (insert_t t l).
+Proof.
+  induction l as [|u l IH]; intros Hs; simpl.
+  - constructor; constructor.
+  - inversion Hs as [|? ? Hs' Hall]; subst.
+    destruct (lex_le t u) eqn:E.
+    + constructor; auto. constructor; [exact E|].
+      eapply Forall_impl; [|exact Hall]. intros x Hx. eapply lexle_trans; eauto.
+    + constructor; auto.
+      assert (Hut : lexle u t) by (destruct (lexle_total t u) as [H|H]; [unfold lexle in H; congruence | exact H]).
+      eapply Permutation_Forall; [apply Permutation_sym, insert_perm|].
+      constructor; auto.
+Qed.
+
+Lemma sort_sorted l : StronglySorted lexle (sort_t l).
+Proof. induction l as [|t l IH]; simpl; [constructor | apply insert_sorted; exact IH]. Qed.
+
+Lemma sorted_perm_eq l1 l2 :
+  StronglySorted lexle l1 -> StronglySorted lexle l2 -> Permutation l1 l2 -> l1 = l2.
+Proof.
+  revert l2; induction l1 as [|a l1 IH]; intros l2 H1 H2 Hp.
+  - apply Permutation_nil in Hp. auto.
+  - destruct l2 as [|c l2]; [apply Permutation_sym, Permutation_nil in Hp; discriminate|].
+    inversion H1 as [|? ? H1' A1]; inversion H2 as [|? ? H2' A2]; subst.
+    assert (a = c).
+    { assert (Hin1 : In a (c :: l2)) by (eapply Permutation_in; [exact Hp | simpl; auto]).
+      assert (Hin2 : In c (a :: l1)) by (eapply Permutation_in; [apply Permutation_sym; exact Hp | simpl; auto]).
+      destruct Hin1 as [->|Hin1]; auto. destruct Hin2 as [->|Hin2]; auto.
+      rewrite Forall_forall in A1, A2. apply lexle_antisym; auto. }
+    subst c. f_equal. apply IH; auto. eapply Permutation_cons_inv; eauto.
+Qed.
+
+Lemma SS_app {T} (R : T -> T -> Prop) l1 l2 :
+  StronglySorted R l1 -> StronglySorted R l2 -> (forall x y, In x l1 -> In y l2 -> R x y) ->
+  StronglySorted R (l1 ++ l2).
+Proof.
+  induction l1 as [|a l1 IH]; intros H1 H2 Hc; simpl; auto.
+  inversion H1 as [|? ? H1' A1]; subst. constructor.
+  - apply IH; auto. intros; apply Hc; simpl; auto.
+  - apply Forall_app. split; auto. apply Forall_forall. intros y Hy. apply Hc; simpl; auto.
+Qed.
+
+(* the occupied tuples, vehicle by vehicle and position by position *)
+Definition occupied (I : inst) (W : nat -> nat -> nat) : list tuple :=
+  flat_map (fun v => map (fun s => (v, s, W v s)) (seq 0 (iL I))) (seq 0 (iV I)).
+
+Lemma in_occupied I W v s n :
+  In (v, s, n) (occupied I W) <-> (v < iV I)%nat /\ (s < iL I)%nat /\ n = W v s.
+Proof.
+  unfold occupied. rewrite in_flat_map. split.
+  - intros (v' & Hv & H). apply in_map_iff in H. destruct H as (s' & E & Hs). inversion E; subst.
+    apply in_seq in Hv, Hs. repeat split; auto; lia.
+  - intros (Hv & Hs & ->). exists v. split; [apply in_seq; lia|]. apply in_map_iff. exists s.
+    split; auto. apply in_seq; lia.
+Qed.
+
+Lemma row_sorted (W : nat -> nat) v a len :
+  StronglySorted lexle (map (fun s => (v, s, W s)) (seq a len)).
+Proof.
+  revert a; induction len as [|len IH]; intros a; simpl; constructor; auto.
+  apply Forall_forall. intros x Hx. apply in_map_iff in Hx. destruct Hx as (s & <- & Hs).
+  apply in_seq in Hs. unfold lexle. rewrite lex_le_spec. lia.
+Qed.
+
+Lemma occupied_sorted_from (W : nat -> nat -> nat) L b cnt :
+  StronglySorted lexle (flat_map (fun v => map (fun s => (v, s, W v s)) (seq 0 L)) (seq b cnt)).
+Proof.
+  revert b; induction cnt as [|cnt IH]; intros b; simpl; [constructor|].
+  apply SS_app; auto; [apply row_sorted|].
+  intros x y Hx Hy. apply in_map_iff in Hx. destruct Hx as (s & <- & _).
+  apply in_flat_map in Hy. destruct Hy as (v' & Hv' & Hy). apply in_map_iff in Hy.
+  destruct Hy as (s' & <- & _). apply in_seq in Hv'. unfold lexle. rewrite lex_le_spec. lia.
+Qed.
+
+Lemma NoDup_occupied I W : NoDup (occupied I W).
+Proof.
+  unfold occupied. apply NoDup_flat_map.
+  - apply seq_NoDup.
+  - intros v _. apply NoDup_map_inj; [|apply seq_NoDup]. intros a b _ _ E; inversion E; auto.
+  - intros a b [[v s] n] _ _ Ha Hb. apply in_map_iff in Ha, Hb.
+    destruct Ha as (? & Ea & _), Hb as (? & Eb & _). inversion Ea; inversion Eb; subst; auto.
+Qed.
+
+(* the loops of get_routes accept the occupied tuples one by one *)
+Lemma decode_pos_walk I W v :
+  walk_assignment I W -> (v < iV I)%nat ->
+  forall len a prev route rest,
+    (a + len <= iL I)%nat ->
+    (forall p, prev = Some p -> exists a', a = S a' /\ p = W v a') ->
+    decode_pos I v (seq a len) (map (fun s => (v, s, W v s)) (seq a len) ++ rest) prev route =
+    Ok (route ++ map (W v) (seq a len), rest).
+Proof.
+  intros HW Hv. induction len as [|len IH]; intros a prev route rest Hal Hprev.
+  - simpl. rewrite app_nil_r. reflexivity.
+  - cbn [seq map app decode_pos]. rewrite !Nat.eqb_refl. cbn [negb orb].
+    assert (Hc : truthy prev && negb (check_arc I (match prev with Some p => p | None => O end, W v a)) = false).
+    { destruct prev as [[|p]|]; cbn [truthy andb]; auto.
+      destruct (Hprev (S p) eq_refl) as (a' & -> & Ep). rewrite Ep.
+      rewrite (wa_arc I W HW v a' Hv) by lia. reflexivity. }
+    rewrite Hc. rewrite IH.
+    + rewrite <- app_assoc. reflexivity.
+    + lia.
+    + intros p Hp. inversion Hp; subst. exists a. auto.
+Qed.
+
+Lemma decode_veh_walk I W :
+  walk_assignment I W ->
+  forall cnt b routes,
+    (b + cnt <= iV I)%nat ->
+    decode_veh I (seq b cnt)
+      (flat_map (fun v => map (fun s => (v, s, W v s)) (seq 0 (iL I))) (seq b cnt)) routes =
+    Ok (routes ++ map (fun v => map (W v) (seq 0 (iL I))) (seq b cnt)).
+Proof.
+  intros HW. induction cnt as [|cnt IH]; intros b routes Hb.
+  - simpl. rewrite app_nil_r. reflexivity.
+  - cbn [seq flat_map decode_veh map].
+    rewrite (decode_pos_walk I W b HW ltac:(lia) (iL I) 0%nat None []); [|lia|intros p Hp; discriminate].
+    cbn [app]. rewrite IH by lia. rewrite <- app_assoc. reflexivity.
+Qed.
+
+Lemma nz_filter (l : list tuple) (xl : list Z) (f : tuple -> Z) d :
+  length xl = length l -> (forall k, (k < length l)%nat -> nth k xl 0 = f (nth k l d)) ->
+  map fst (filter (fun tx => negb (snd tx =? 0)) (combine l xl)) = filter (fun t => negb (f t =? 0)) l.
+Proof.
+  revert xl; induction l as [|a l IH]; intros [|z xl] Hlen H; simpl in *; try discriminate; auto.
+  rewrite <- (H 0%nat) by lia. destruct (negb (z =? 0)); simpl; [f_equal|]; apply IH; auto;
+    intros k Hk; apply (H (S k)); lia.
+Qed.
+
+Lemma map_flat_map {T U S'} (f : U -> S') (g : T -> list U) l :
+  map f (flat_map g l) = flat_map (fun a => map f (g a)) l.
+Proof. induction l as [|a l IH]; simpl; auto. rewrite map_app, IH. reflexivity. Qed.
+
+Lemma NoDup_fixed_keys I : NoDup (map fst (fixed_items I)).
+Proof.
+  unfold fixed_items. rewrite map_flat_map. apply NoDup_flat_map.
+  - apply NoDup_grid.
+  - intros [s n] _. cbn [fst snd]. destruct (rule I s n); [|constructor].
+    rewrite map_map. cbn [fst]. apply NoDup_map_inj; [|apply seq_NoDup]. intros a b _ _ E; inversion E; auto.
+  - intros [s1 n1] [s2 n2] [[v s] n] _ _ Ha Hb. cbn [fst snd] in *.
+    destruct (rule I s1 n1); [|destruct Ha]. destruct (rule I s2 n2); [|destruct Hb].
+    rewrite map_map in Ha, Hb. cbn [fst] in Ha, Hb. apply in_map_iff in Ha, Hb.
+    destruct Ha as (? & Ea & _), Hb as (? & Eb & _). inversion Ea; inversion Eb; subst; auto.
+Qed.
+
+Lemma NoDup_map_filter {T U} (f : T -> U) (p : T -> bool) l : NoDup (map f l) -> NoDup (map f (filter p l)).
+Proof.
+  induction l as [|a l IH]; simpl; intros H; auto. inversion H; subst.
+  destruct (p a); simpl; auto. constructor; auto.
+  intros Hin. apply in_map_iff in Hin. destruct Hin as (b & E & Hb). apply filter_In in Hb.
+  match goal with Hn : ~ In _ _ |- _ => apply Hn end. rewrite <- E. apply in_map. tauto.
+Qed.
+
+Lemma NoDup_app_disj {T} (l1 l2 : list T) :
+  NoDup l1 -> NoDup l2 -> (forall x, In x l1 -> ~ In x l2) -> NoDup (l1 ++ l2).
+Proof.
+  induction l1 as [|a l1 IH]; intros H1 H2 Hd; simpl; auto. inversion H1; subst. constructor.
+  - rewrite in_app_iff. intros [H|H]; [contradiction|]. apply (Hd a); simpl; auto.
+  - apply IH; auto. intros x Hx. apply Hd. simpl; auto.
+Qed.
+
+Theorem decode_walks I W (xl : list Z) :
+  seq_ok I -> (3 <= iL I)%nat -> walk_assignment I W ->
+  length xl = nv I -> (forall k, (k < nv I)%nat -> nth k xl 0 = indicator_free I W k) ->
+  decode I xl = Ok (walks I W).
+Proof.
+  intros Hok HL HW Hlen Hx. set (x := fun k => nth k xl 0).
+  pose proof (X_ind I W x HW Hx) as HX.
+  set (nz := map fst (filter (fun tx => negb (snd tx =? 0)) (combine (vars I) xl))).
+  set (ones := map fst (filter (fun tz => snd tz =? 1) (fixed_items I))).
+  assert (Enz : nz = filter (fun t => negb (ind W t =? 0)) (vars I)).
+  { apply (nz_filter (vars I) xl (ind W) (O, O, O)); auto.
+    intros k Hk. rewrite (Hx k Hk). unfold indicator_free, var_tuple.
+    rewrite (nth_error_nth' (vars I) (O, O, O) Hk). destruct (nth k (vars I) (O, O, O)) as [[v s] n]. reflexivity. }
+  assert (Hnz : forall v s n, In (v, s, n) nz <-> In (v, s, n) (vars I) /\ n = W v s).
+  { intros v s n. rewrite Enz, filter_In. unfold ind.
+    destruct (Nat.eqb_spec (W v s) n); simpl; intuition congruence. }
+  assert (Hones : forall v s n, In (v, s, n) ones <->
+            (v < iV I)%nat /\ (s < iL I)%nat /\ (n < iN I)%nat /\ rule I s n = Some 1).
+  { intros v s n. unfold ones. rewrite in_map_iff. split.
+    - intros ([t z] & E & Hin). simpl in E. subst t. apply filter_In in Hin. destruct Hin as [Hin Hz].
+      simpl in Hz. apply Z.eqb_eq in Hz. subst z. apply in_fixed_items in Hin. exact Hin.
+    - intros H. exists ((v, s, n), 1). split; auto. apply filter_In. split; auto.
+      apply in_fixed_items. exact H. }
+  assert (Hmem : forall t, In t (nz ++ ones) <-> In t (occupied I W)).
+  { intros [[v s] n]. rewrite in_app_iff, Hnz, Hones, in_occupied. split.
+    - intros [[Hin ->] | (Hv & Hs & Hn & Hr)].
+      + apply in_vars in Hin. tauto.
+      + repeat split; auto.
+        assert (E : var_index I (v, s, n) = None).
+        { apply var_index_None. rewrite in_vars. intros (_ & _ & _ & H). congruence. }
+        destruct (var_index_None_rule I v s n Hv Hs Hn E) as (z & Hz & Hfv).
+        pose proof (HX v s n Hv Hs) as Hi. unfold X in Hi. rewrite E, Hfv in Hi.
+        assert (Hz1 : z = 1) by congruence. unfold ind in Hi. rewrite Hz1 in Hi. revert Hi.
+        destruct (Nat.eqb_spec (W v s) n) as [e|e]; [intros _; symmetry; exact e | intros Hi; discriminate Hi].
+    - intros (Hv & Hs & ->). pose proof (wa_node I W HW v s Hv Hs) as Hn.
+      destruct (fixed_or_free I v s (W v s) Hv Hs Hn) as [(k & Hk & _) | (z & Hk & Hz)].
+      + left. split; auto. apply var_index_In_iff. eauto.
+      + right. repeat split; auto. pose proof (HX v s (W v s) Hv Hs) as Hi.
+        unfold X, fixed_val in Hi. rewrite Hk, Hz in Hi. unfold ind in Hi. rewrite Nat.eqb_refl in Hi.
+        subst z. apply fixed_Some in Hz. tauto. }
+  assert (Hsort : sort_t (nz ++ ones) = occupied I W).
+  { apply sorted_perm_eq; [apply sort_sorted | apply occupied_sorted_from |].
+    eapply perm_trans; [apply sort_perm|]. apply NoDup_Permutation; auto; [|apply NoDup_occupied].
+    apply NoDup_app_disj.
+    - rewrite Enz. apply NoDup_filter, NoDup_vars.
+    - apply NoDup_map_filter, NoDup_fixed_keys.
+    - intros [[v s] n] H1 H2. apply Hnz in H1. apply Hones in H2. destruct H1 as [H1 _].
+      apply in_vars in H1. destruct H1 as (_ & _ & _ & H1), H2 as (_ & _ & _ & H2). congruence. }
+  unfold decode. fold nz. fold ones.
+  destruct (Nat.eq_dec (iV I) 0) as [EV|EV].
+  - assert (Evars : vars I = []).
+    { destruct (vars I) as [|[[v s] n] l] eqn:E; auto. exfalso.
+      assert (Hin : In (v, s, n) (vars I)) by (rewrite E; simpl; auto). apply in_vars in Hin. lia. }
+    unfold nz. rewrite Evars. simpl. unfold walks. rewrite EV. reflexivity.
+  - assert (Hne : nz <> []).
+    { assert (Hin : In (0%nat, 1%nat, W 0%nat 1%nat) (nz ++ ones)) by (apply Hmem, in_occupied; repeat split; lia).
+      apply in_app_iff in Hin. destruct Hin as [Hin|Hin]; [intros E; rewrite E in Hin; destruct Hin|].
+      apply Hones in Hin. destruct Hin as (_ & _ & _ & Hr). apply rule_value in Hr.
+      destruct Hr as [[_ (_ & Hp)] | [Hr _]]; [|lia]. exfalso. lia. }
+    destruct nz as [|t0 nz'] eqn:Enz'; [congruence|]. rewrite Hsort.
+    unfold occupied. rewrite (decode_veh_walk I W HW (iV I) 0%nat []) by lia. reflexivity.
 Qed.
